@@ -169,6 +169,8 @@ void h_seg_purge(void) {
   mi_segment_purge(&S.seg, (uint8_t*)&S + b0 * MI_COMMIT_SIZE, nb * MI_COMMIT_SIZE);
   CHECK(mask_subset(&purged, &want), "C13: only blocks inside the given (unused) range are purged");
   CHECK(mask_subset(&S.seg.commit_mask, &os_committed), "C13: decommitted blocks leave the commit mask (never used again without a commit)");
+  if (S.seg.allow_purge) { mi_commit_mask_t cw; mi_commit_mask_create_intersect(&c0, &want, &cw);
+    CHECK(mask_subset(&cw, &purged), "C18: every committed block of the unused range is handed to the OS purge -- also when part of the range was never committed"); }
   mi_commit_mask_t inter; mi_commit_mask_create_intersect(&S.seg.purge_mask, &want, &inter);
   CHECK(mi_commit_mask_is_empty(&inter), "purged range leaves the schedule");
   for (size_t f = 0; f < MI_COMMIT_MASK_FIELD_COUNT; f++) CHECK((S.seg.commit_mask.mask[f] & ~want.mask[f]) == (c0.mask[f] & ~want.mask[f]), "commit bits outside the range are untouched");
